@@ -14,6 +14,11 @@ def setup(db, rng):
     r.append(db.sql("CREATE TABLE t2(x int, y varchar(255));"))
     r.append(db.cmd("mktable t3 p:i:n,q:s:n"))
     r.append(db.cmd("mktable t4 k:i:b,v:i:n"))
+    # join keys that are NULL in every row (n1) and in some rows (n2): a hash join's build side may hash nothing at all
+    r.append(db.cmd("mktable n1 a:i:n,b:i:n")); r.append(db.cmd("mktable n2 a:i:n,b:i:n"))
+    for i in range(12):
+        r.append(db.cmd("rawinsert n1 n i:%d" % i))
+        r.append(db.cmd("rawinsert n2 %s i:%d" % ("n" if i % 3 else "i:%d" % (i % 7), i)))
     for i in range(40):
         r.append(db.sql("INSERT INTO t1(a,b,c) VALUES (%d, '%s', %d);" % (i % 13, "r%d" % i, i)))
         r.append(db.sql("INSERT INTO t2(x,y) VALUES (%d, '%s');" % (i % 7, "s%d" % i)))
@@ -38,6 +43,11 @@ def statements(rng, big):
         "SELECT t1.c, t3.q FROM t1 JOIN t3 ON t1.a = t3.p;",
         "SELECT t3.q, t4.v FROM t3 JOIN t4 ON t3.p = t4.k WHERE t4.v >= %d;" % rng.randrange(40),
         "SELECT t1.a, t2.x FROM t1, t2 WHERE t1.c = %d;" % rng.randrange(40),
+        "SELECT n1.b, t2.y FROM n1 JOIN t2 ON n1.a = t2.x;",
+        "SELECT t2.y, n1.b FROM t2 JOIN n1 ON t2.x = n1.a;",
+        "SELECT n2.b, t2.y FROM n2 JOIN t2 ON n2.a = t2.x;",
+        "SELECT n1.b, n2.b FROM n1 JOIN n2 ON n1.a = n2.a;",
+        "SELECT n2.b, t3.q FROM n2 JOIN t3 ON n2.a = t3.p WHERE n2.b >= %d;" % rng.randrange(12),
         "INSERT INTO t1(a,b,c) VALUES (%d, '%s', %d);" % (rng.randrange(14), "n" + (pad if big else ""), 100 + rng.randrange(100)),
         "INSERT INTO t3(p,q) VALUES (%d, '%s');" % (rng.randrange(6), "m" + (pad if big else "")),
         "UPDATE t1 SET b = '%s' WHERE c = %d;" % ("g" + pad, rng.randrange(40)),          # grows the row: may relocate it
@@ -100,6 +110,36 @@ def run(res, replay=None):
                     break
             if not db.dead:
                 db.cmd("abort holder")
+            # explicit transactions that END BY AN ABORT (or a commit): the rollback of every kind of change must give back its pins too.
+            # rows of t5 are wide so that a shrinking update relocates the row within its page and a growing one moves it to another page
+            if not db.dead:
+                db.cmd("mktable t5 k:i:n,w:s:n")
+                for i in range(9):
+                    db.cmd("rawinsert t5 i:%d s:%s" % (i, (b"L" * (1000 - i)).hex()))
+                shapes = [("shrinking update", ["UPDATE t5 SET w = 'short' WHERE k = %d;" % rng.randrange(9)]),
+                          ("growing update", ["UPDATE t5 SET w = '%s' WHERE k = %d;" % ("G" * 1800, rng.randrange(9))]),
+                          ("shrink then grow", ["UPDATE t5 SET w = 's' WHERE k = 2;", "UPDATE t5 SET w = '%s' WHERE k = 2;" % ("H" * 1500)]),
+                          ("delete", ["DELETE FROM t5 WHERE k = %d;" % rng.randrange(9)]),
+                          ("insert", ["INSERT INTO t5(k,w) VALUES (77, '%s');" % ("I" * 900)]),
+                          ("indexed table: key change + grow", ["UPDATE t1 SET a = 3, b = '%s' WHERE c = %d;" % ("g" * 200, 5 + rng.randrange(10))]),
+                          ("delete all then insert", ["DELETE FROM t5 WHERE k >= 0 OR k >= 0;", "INSERT INTO t5(k,w) VALUES (78, 'x');"])]
+                for what, stmts in shapes:
+                    for end in ("abort", "commit") if what != "delete all then insert" else ("abort",):
+                        before = db.cmd("pins")
+                        db.cmd("begin e")
+                        outs = [db.cmd("tsql e " + s) for s in stmts]
+                        db.cmd(end + " e")
+                        after = db.cmd("pins")
+                        cls = "txn|%s|%s|%s" % (what, end, ",".join(o.split(":")[0] for o in outs))
+                        classes[cls] = classes.get(cls, 0) + 1
+                        res.note_case(cls, True)
+                        if db.dead:
+                            res.oracle_failures.append(("\n".join(db.log[-30:]), "engine stopped answering: " + db.dead)); break
+                        if before != after and len(res.oracle_failures) < 5:
+                            res.oracle_failures.append(("# session:\n" + "\n".join(db.log[-4000:]),
+                                                        "a transaction (%s: %s) ended by %s leaves frames pinned: pins before %s | after %s" % (what, " ".join(s[:60] for s in stmts), end, before, after)))
+                    if db.dead:
+                        break
         finally:
             db.destroy()
     # a workload "of any length" sample: the same hash join 150 times in a 40-frame pool (fixed defect F-JOIN-PIN)
